@@ -1,5 +1,9 @@
 """Self-test of the machinery against seeded changes (not part of any registered command).
 
+Needs numpy + scipy for /venv (to run the repository's 586 tests on the changed copy); create them once, offline, with
+    /venv/bin/pip install --no-index --find-links /opt/veriftools/wheels --target /tmp/pydeps numpy scipy
+(about 200 MB; scratch, removed after use).
+
     python3-vt harness/seedtest.py <mutation-dir> <Cxx> [other Cyy ...]
 
 <mutation-dir> holds patch.diff, demo.py (exit 0 = property holds on its input, 1 = violated; reads the
